@@ -342,6 +342,33 @@ def guard_eval(repo: Repo) -> RuleRun:
         ev_p = Evaluator(repo=repo, module=pinit.module, call_hook=arr_hook)
         res = _try(ev_p, pinit, [pt, arr])
         expect(pinit, res, bad, f"Point(array of shape {shape})", ("PointCreationError", "TypeError", "ValueError", "IndexError"))
+    # Side(orient, vertices): exactly the block's 8 vertices, for every orient (the corners a side needs differ from orient to orient)
+    sinit = repo.func("items.side.Side.__init__")
+    fmap = repo.module_constant("util.constants", "FACE_MAP") if hasattr(repo, "module_constant") else None
+    for orient in ("bottom", "top", "left", "right", "front", "back"):
+        for nv, bad in ((4, True), (7, True), (8, False), (9, True)):
+            sd = Obj("side", cls=repo.cls("items.side.Side"))
+            res = _try(Evaluator(repo=repo, module=sinit.module), sinit, [sd, orient, [Sym(f"v{i}") for i in range(nv)]])
+            expect(sinit, res, bad, f"Side('{orient}', {nv} vertices)", ("SideCreationError", "IndexError"))
+    # Elbow.chain: only a shape built on a full Disk can be continued by an elbow (12 blocks) - a half / quarter / one-core disk is another blocking
+    echain = repo.func("construct.shapes.elbow.Elbow.chain")
+    for sk_name, bad in (("Disk", False), ("HalfDisk", True), ("OneCoreDisk", True), ("QuarterDisk", True), ("WrappedDisk", True)):
+        sk_cls = repo.cls(f"construct.flat.sketches.disk.{sk_name}") if sk_name != "Disk" else repo.resolve_name(echain.module, "Disk")
+        src = Obj("source")
+        for nm_ in ("sketch_1", "sketch_2"):
+            src.set(nm_, Obj(f"{sk_name}-{nm_}", cls=sk_cls, center=Sym("c"), radius_point=Sym("rp"), normal=Sym("n")))
+
+        def e_hook(ev, call, name):
+            if name == "cls":
+                return Obj("elbow")
+            if name == "type":
+                return Sym("type")
+            return NO_MATCH
+
+        ev_e = Evaluator(repo=repo, module=echain.module, call_hook=e_hook)
+        ev_e.opaque_arith = True
+        res = _try(ev_e, echain, [Sym("cls"), src, Sym("sweep"), Sym("arc_center"), Sym("axis"), Sym("r2")])
+        expect(echain, res, bad, f"Elbow.chain(source on a {sk_name})", ("ElbowCreationError",))
     # Operation.unchop: the mutator that empties an axis must refuse the axes its sibling chop() refuses - an unknown axis
     # silently grows the store by a key nothing ever reads
     ounchop = repo.func("construct.operations.operation.Operation.unchop")
